@@ -196,7 +196,56 @@ def size_cases(tier):
     return cs
 
 
+# ----------------------------------------------------------------------------------------------
+# searches deeper than 2**16 levels: only reachable with a registered value heuristic; this one is built from the
+# shipped value_dom_heuristic (value = max - 1), which leaves one pending alternative per solution
+# ----------------------------------------------------------------------------------------------
+_DEEP = {}
+
+
+def deep_heuristic_idx():
+    if "idx" not in _DEEP:
+        from numba import njit
+
+        from nucs.heuristics.heuristics import register_dom_heuristic
+        from nucs.heuristics.value_dom_heuristic import value_dom_heuristic
+
+        @njit(cache=False)
+        def deep_dom_heuristic(params, shr_domains_stack, not_entailed_propagators_stack, dom_update_stack, stacks_top, dom_idx):
+            return value_dom_heuristic(params, shr_domains_stack, not_entailed_propagators_stack, dom_update_stack, stacks_top, dom_idx, shr_domains_stack[stacks_top[0], dom_idx, 1] - 1)
+
+        _DEEP["idx"] = register_dom_heuristic(deep_dom_heuristic)
+    return _DEEP["idx"]
+
+
+def check_deep(case):
+    from nucs.solvers.backtrack_solver import BacktrackSolver
+
+    H, D = case["height"], case["D"]
+    tags = ["deep", "height:%s" % ("<65532" if H < 65532 else "65532..65536" if H <= 65536 else ">65536"), "depth:%s" % ("<=height" if D // 2 < H - 2 else ">height")]
+    pb = nx.Problem([(0, D)])
+    try:
+        solver = engine(lambda: BacktrackSolver(pb, dom_heuristic_idx=deep_heuristic_idx(), stack_max_height=H, log_level="CRITICAL"))
+        sols = [int(s[0]) for s in engine(lambda: list(solver.solve()))]
+    except EngineError as e:
+        return Verdict(True, "", True, tags + ["outcome:raised"])
+    tags.append("outcome:completed")
+    if sorted(sols) != list(range(D + 1)):
+        return Verdict(False, "one variable in [0,%d] with a value heuristic leaving one pending alternative per solution, stack_max_height=%d: accepted and completed without error but yields %d solutions (%d distinct) instead of %d" % (D, H, len(sols), len(set(sols)), D + 1), True, tags)
+    return Verdict(True, "", True, tags)
+
+
+def deep_cases(tier):
+    cs = []
+    for H in [1000, 60000, 65530, 65531, 65532, 65533, 65534, 65535, 65536, 65537, 100000]:
+        for D in ([500, 140000] if tier == "quick" else [500, 65000, 131060, 131072, 140000, 200000]):
+            cs.append({"kind": "deep", "height": H, "D": D})
+    return cs
+
+
 def check(case):
+    if case["kind"] == "deep":
+        return check_deep(case)
     return check_stack(case) if case["kind"] == "stack" else check_size(case)
 
 
@@ -217,6 +266,8 @@ def jobs(tier):
         {"name": "stack-J", "mode": "J", "shards": 10, "case_timeout": 120, "crash_is_verdict": True},
         {"name": "stack-I", "mode": "I", "shards": 4, "case_timeout": 900},
         {"name": "size-J", "mode": "J", "shards": 2, "case_timeout": 600, "crash_is_verdict": True},
+        {"name": "deep-J", "mode": "J", "shards": 2, "case_timeout": 600, "crash_is_verdict": True},
+        {"name": "deep-I", "mode": "I", "shards": 4, "case_timeout": 900},
     ]
 
 
@@ -227,9 +278,9 @@ def run(job, shard, nshards, seed, tier):
     from vlib.run import Recorder, drive, shard_seed
 
     rec = Recorder()
-    if job["name"] == "size-J":
+    if job["name"] in ("size-J", "deep-J", "deep-I"):
         journal = os.environ.get("VERIF_JOURNAL")
-        for i, case in enumerate(size_cases(tier)):
+        for i, case in enumerate(size_cases(tier) if job["name"] == "size-J" else deep_cases(tier)):
             if i % nshards != shard:
                 continue
             if journal:
